@@ -63,6 +63,10 @@ const WIDE: &str = "\u{0}wide_msg";
 #[derive(Debug, Clone, Serialize, Deserialize)]
 pub struct FidCase {
     pub parts: Vec<TPart>,
+    /// Some(w): the bar has tab width w and the template reaches it through
+    /// `pb.style().template(..)` + `set_style` instead of `with_template`
+    #[serde(default)]
+    pub via_bar_style: Option<u8>,
 }
 
 pub fn key_name(k: &KeyRef) -> String {
@@ -140,12 +144,12 @@ pub fn with_custom_keys(mut style: ProgressStyle) -> ProgressStyle {
 }
 
 /// acceptable renderings of each part, in order
-fn reference(parts: &[TPart]) -> Vec<Vec<String>> {
+fn reference(parts: &[TPart], tab_width: usize) -> Vec<Vec<String>> {
     parts
         .iter()
         .map(|p| match p {
-            TPart::Lit(s) => vec![model::expand_tabs(s, 8)],
-            TPart::BraceWs(c) => vec![model::expand_tabs(&format!("{{{c}"), 8)],
+            TPart::Lit(s) => vec![model::expand_tabs(s, tab_width)],
+            TPart::BraceWs(c) => vec![model::expand_tabs(&format!("{{{c}"), tab_width)],
             TPart::NewLine => vec!["\n".to_string()],
             TPart::WideMsg => vec![WIDE.to_string()],
             TPart::Ph { key, spec } => {
@@ -216,7 +220,7 @@ fn normalise(parts: &[TPart]) -> Vec<TPart> {
 }
 
 fn run_fidelity(c0: &FidCase) -> CaseResult {
-    let c = &FidCase { parts: normalise(&c0.parts) };
+    let c = &FidCase { parts: normalise(&c0.parts), via_bar_style: c0.via_bar_style };
     let template = encode(&c.parts);
     let max_width = c
         .parts
@@ -243,13 +247,23 @@ fn run_fidelity(c0: &FidCase) -> CaseResult {
             return Ok(v);
         }
     };
-    let setup = BarSetup { cols: u16::MAX, rows: u16::MAX, ..Default::default() };
+    let mut setup = BarSetup { cols: u16::MAX, rows: u16::MAX, ..Default::default() };
+    let style = match c.via_bar_style {
+        Some(w) => {
+            setup.tab_width = Some(w as usize % 17);
+            setup.retemplate = Some(template.clone());
+            drop(style);
+            ProgressStyle::with_template("placeholder").unwrap()
+        }
+        None => style,
+    };
+    let tab_width = setup.tab_width.unwrap_or(8);
     let lines = match render(with_custom_keys(style), &setup) {
         Ok(l) => l,
         Err(RenderErr::Panic(p)) => return Err(Fail::new("render_panic", format!("rendering {template:?} panicked: {p}"))),
         Err(RenderErr::Pattern(p)) => return Err(Fail::new("harness", format!("rendering {template:?}: {p}"))),
     };
-    let alts = reference(&c.parts);
+    let alts = reference(&c.parts, tab_width);
     let first: String = alts.iter().map(|a| if a[0] == WIDE { "Msg" } else { a[0].as_str() }).collect();
     // `lines()` convention: a final newline does not start another line
     let want_lines = if first.is_empty() { 0 } else { first.strip_suffix('\n').unwrap_or(&first).matches('\n').count() + 1 };
@@ -318,6 +332,7 @@ fn run_fidelity(c0: &FidCase) -> CaseResult {
     v.label_if(brace_adjacent, "brace_ws_adjacent_to_literal");
     v.label_if(multiline, "multi_line");
     v.label_if(has_wide, "wide_msg");
+    v.label_if(c.via_bar_style.is_some(), "template_set_through_the_bars_own_style");
     v.label_if(has_wide && multiline, "wide_msg_in_multi_line_template");
     v.label_if(c.parts.iter().any(|p| matches!(p, TPart::BraceWs('\n'))), "brace_followed_by_line_break");
     v.label_if(c.parts.iter().any(|p| matches!(p, TPart::Lit(s) if s.contains('{') || s.contains('}'))), "escaped_braces");
@@ -346,7 +361,7 @@ fn key_strategy() -> BoxedStrategy<KeyRef> {
     prop_oneof![
         4 => (0..CUSTOM.len()).prop_map(KeyRef::Custom),
         2 => (0..BUILTIN.len()).prop_map(KeyRef::Builtin),
-        2 => "[a-z_][a-z_0-9./]{0,7}"
+        2 => "[a-z_][a-z_0-9./!]{0,7}"
             .prop_filter("not a known key", |s| !DOCUMENTED.contains(&s.as_str()) && !CUSTOM.iter().any(|k| k.0 == s))
             .prop_map(KeyRef::Unknown),
     ]
@@ -390,7 +405,7 @@ fn part_strategy() -> BoxedStrategy<TPart> {
 }
 
 pub fn fid_strategy() -> BoxedStrategy<FidCase> {
-    proptest::collection::vec(part_strategy(), 0..9).prop_map(|parts| FidCase { parts }).boxed()
+    (proptest::collection::vec(part_strategy(), 0..9), proptest::option::weighted(0.2, 0u8..17)).prop_map(|(parts, via_bar_style)| FidCase { parts, via_bar_style }).boxed()
 }
 
 // ------------------------------------------------------------------------------------------
@@ -483,7 +498,8 @@ fn decode_fid(u: &mut FuzzInput) -> FidCase {
             }
         });
     }
-    FidCase { parts }
+    let via_bar_style = if parts.len() % 4 == 3 { Some(parts.len() as u8 * 3 % 17) } else { None };
+    FidCase { parts, via_bar_style }
 }
 
 pub fn property() -> Property {
